@@ -313,8 +313,8 @@ func (s *r2State) collectPredicates(entries []core.Entry) map[string][]*r2Pred {
 				acq  int
 			}
 			wvars := map[*types.Var]winfo{}
-			lastGet := -1
-			var lastGetLock *types.Var
+			wt := newWTrack()
+			getAcq := map[int]winfo{}
 			defs := map[*types.Var]localDef{}
 			record := func(i int, ev *core.Event, w *types.Var) {
 				wi, ok := wvars[w]
@@ -354,7 +354,10 @@ func (s *r2State) collectPredicates(entries []core.Entry) map[string][]*r2Pred {
 				case core.KRelease:
 					delete(open, ev.Lock)
 				case core.KGetWaitCh:
-					lastGet, lastGetLock = i, ev.Lock
+					wt.onGet(i, ev)
+					if a, ok := open[ev.Lock]; ok {
+						getAcq[i] = winfo{lock: ev.Lock, acq: a}
+					}
 				case core.KAssign:
 					if ev.FieldInit {
 						break
@@ -370,12 +373,12 @@ func (s *r2State) collectPredicates(entries []core.Entry) map[string][]*r2Pred {
 					} else {
 						defs[v] = localDef{}
 					}
-					if lastGet >= 0 && ev.Rhs != nil {
-						if call, ok := unparen(ev.Rhs).(*ast.CallExpr); ok && p.Events[lastGet].Call == call {
-							if a, ok := open[lastGetLock]; ok {
-								wvars[v] = winfo{lock: lastGetLock, acq: a}
-							}
+					if gi, ok := wt.onAssign(v, ev); ok {
+						if wi, ok := getAcq[gi]; ok {
+							wvars[v] = wi
 						}
+					} else {
+						delete(wvars, v)
 					}
 				case core.KSelect:
 					if sel, ok := ev.Node.(*ast.SelectStmt); ok && !ev.HasDefault {
